@@ -19,6 +19,7 @@ import tempfile
 
 from hypothesis import strategies as st
 
+from vlib import c26_pool as pool
 from vlib import c26_trans as C
 from vlib import gen_fortran as gf
 from vlib.runner import HarnessError
@@ -148,13 +149,23 @@ SETUP_MENU[C.GOCEAN_ALG] = ["RaisePSyIR2AlgTrans"]
 # strategies
 # ----------------------------------------------------------------------
 @st.composite
-def plans(draw, api, nsweeps, max_setup=2):
+def plans(draw, api, nsweeps, max_setup=2, family=()):
     names = [s.name for s in C.specs_for(api)]
     if not names:
         raise HarnessError(f"C26: no transformation for tree kind {api}")
     num = min(nsweeps, len(names))
-    chosen = draw(st.lists(st.sampled_from(names), min_size=num,
-                           max_size=num, unique=True))
+    chosen = []
+    family = [n for n in family if n in names]
+    if family:
+        # most sweeps from the family the tree was written for
+        nfam = min(len(family), max(1, num - 2))
+        chosen = draw(st.lists(st.sampled_from(family), min_size=nfam,
+                               max_size=nfam, unique=True))
+    rest = [n for n in names if n not in chosen]
+    more = min(num - len(chosen), len(rest))
+    if more > 0:
+        chosen = chosen + draw(st.lists(st.sampled_from(rest), min_size=more,
+                                        max_size=more, unique=True))
     sweeps = []
     for name in chosen:
         spec = C.BYNAME[name]
@@ -166,7 +177,7 @@ def plans(draw, api, nsweeps, max_setup=2):
         })
     menu = [n for n in SETUP_MENU[api] if C.BYNAME[n].cls is not None]
     setup = []
-    nset = draw(st.sampled_from([0, 0, 1, 1, 2])) if menu and max_setup \
+    nset = draw(st.sampled_from([0, 0, 1, 1, 2, 3])) if menu and max_setup \
         else 0
     for _ in range(min(nset, max_setup)):
         name = draw(st.sampled_from(menu))
@@ -185,6 +196,14 @@ def gen_cases(draw):
     plan = draw(plans(C.GENERIC, 6))
     return {"kind": "src", "api": C.GENERIC, "source": prog.module_source,
             **plan}
+
+
+@st.composite
+def tuned_cases(draw):
+    names, source = draw(pool.tuned_programs())
+    plan = draw(plans(C.GENERIC, 6, max_setup=3))
+    return {"kind": "src", "api": C.GENERIC, "fragments": names,
+            "source": source, **plan}
 
 
 @st.composite
@@ -427,6 +446,8 @@ def run(ctx):
     os.chdir(workdir)
     try:
         ctx.hyp(sweeper.run_case, gen_cases(), key=case_key, salt=1,
+                max_examples=ctx.scale(64, 2400), shrink_budget=40)
+        ctx.hyp(sweeper.run_case, tuned_cases(), key=case_key, salt=4,
                 max_examples=ctx.scale(64, 2400), shrink_budget=40)
         ctx.hyp(sweeper.run_case, src_cases(), key=case_key, salt=2,
                 max_examples=ctx.scale(32, 320), shrink_budget=40)
